@@ -37,6 +37,7 @@ def run(ctx, chk):
     # R7: which locale reads the string (and its zone word) must not depend on earlier calls
     from .c13 import previous_locales_flag_rule
     previous_locales_flag_rule(ctx, chk, "C11.R7")
+    dropped_words_rule(ctx, chk, "C11.R9")
 
 
 def _spellings(name):
@@ -143,7 +144,11 @@ def r2(ctx, chk):
             if any("IGNORECASE" in ast.unparse(a) or ast.unparse(a).endswith(".I") for a in n.value.args[1:] + [k.value for k in n.value.keywords]):
                 ic.add(ast.unparse(n.targets[0]))
     if not ic:
-        raise AnalysisError(rule, "_load_offsets compiles no IGNORECASE search regex")
+        chk.ob(rule, "_load_offsets compiles an IGNORECASE search regex for the prefilter", False,
+               "none of the regexes compiled on the rebuild path ignores case: after a cache rebuild lower-case abbreviations ('10:00 est') are not "
+               "recognised as zones any more", key={"function": lo.key, "construct": "ignorecase prefilter compiled"},
+               file=lo.file, function=lo.qual, line=lo.node.lineno)
+        return
     guards = [s for s in iter_own_stmts(f.node.body) if isinstance(s, ast.If) and ".search(" in ast.unparse(s.test)]
     if not guards:
         raise AnalysisError(rule, "pop_tz_offset_from_string has no prefilter guard")
@@ -421,3 +426,56 @@ def first_match_rule(ctx, chk, rule):
                        key={"function": f.key, "construct": "first match leaves the loop"}, file=f.file, function=f.qual, line=t.lineno,
                        text=" ".join(ast.unparse(t.test).split())[:80])
     chk.floor(rule, n, 3, "scans of the ordered timezone table")
+
+
+
+def dropped_words_rule(ctx, chk, rule):
+    """a locale's `skip` and `pertain` words (and the default SKIP_TOKENS) are translated to nothing - and translation runs BEFORE the timezone
+    is looked for in the absolute and relative parsers.  A dropped word that spells a timezone abbreviation of the table, or that the
+    NORMALIZE folding turns into the sign of a numeric offset, therefore deletes the zone the string named: the result comes back naive (or
+    None) although the table knows the zone.  Decided for every language and every regional addition against all table names."""
+    import unicodedata
+    from ..core.data import LangData, module_literal
+    tl, entries, parts = tz_model(ctx, rule)
+    names = {}
+    for name, pat, secs in entries:
+        if name.isalpha():
+            names.setdefault(name.lower(), set()).add(secs)
+
+    def fold(s):
+        return "".join(c for c in unicodedata.normalize("NFKD", s) if unicodedata.category(c) != "Mn")
+    ld = ctx.memo("langdata", lambda: LangData(ctx.repo))
+    dflt = module_literal(ctx.repo, "dateparser_data/settings.py", "settings").get("SKIP_TOKENS", [])
+    n = 0
+
+    def examine(where, file_lang, words, src):
+        nonlocal n
+        for w in words:
+            if not isinstance(w, str):
+                continue
+            n += 1
+            forms = {w.lower(), fold(w.lower())}
+            hit = sorted(f for f in forms if f in names)
+            sign = sorted(f for f in forms if f in ("+", "-", "−"))
+            if hit or (sign and w not in ("+", "-")):
+                what = ("spells the timezone abbreviation %s (%+.2f h)" % (hit[0].upper(), sorted(names[hit[0]])[0] / 3600.0)) if hit else \
+                    "is folded to the offset sign %r by NORMALIZE" % sign[0]
+                chk.ob(rule, "%s: dropped word %r (%s) is not a timezone spelling" % (where, w, src), False,
+                       "%r is dropped by translation and %s: '<date> <time> %s' loses its zone when this locale reads the string" % (w, what, (hit or sign)[0].upper()),
+                       key={"locale": where, "word": w, "construct": "dropped word is a zone"},
+                       file=("dateparser/data/date_translation_data/%s.py" % file_lang) if file_lang else "dateparser_data/settings.py",
+                       function="info[%r]" % src, line=None)
+    examine("default settings", None, dflt, "SKIP_TOKENS")
+    for lang in sorted(ld.languages()):
+        base = ld.locale_info(lang, lang)
+        for k in ("skip", "pertain"):
+            examine(lang, lang, base.get(k, []), k)
+        for loc in ld.locales(lang):
+            if loc == lang:
+                continue
+            info = ld.locale_info(lang, loc)
+            for k in ("skip", "pertain"):
+                extra = [w for w in info.get(k, []) if w not in base.get(k, [])]
+                examine(loc, lang, extra, k)
+    chk.ob(rule, "%d dropped words of all languages and locales examined against %d alphabetic timezone names" % (n, len(names)), True)
+    chk.floor(rule, n, 1500, "skip / pertain words examined")
